@@ -143,10 +143,10 @@ func (a *An) c06Atomic() {
 				pl = append(pl, p)
 			}
 			sort.Strings(pl)
-			key := fmt.Sprintf("%s|%s|then-fails:%s", a.C.Name(f), k.what, k.src)
+			key := fmt.Sprintf("%s|%s|then-fails:%s", a.C.Name(a.C.owner(f)), k.what, k.src)
 			exempt := -1
 			for i, e := range atomicExempt {
-				if e.fn == a.C.Name(f) && e.what == k.what && strings.HasPrefix(k.src, e.srcPrefix) {
+				if e.fn == a.C.Name(a.C.owner(f)) && e.what == k.what && strings.HasPrefix(k.src, e.srcPrefix) {
 					exempt = i
 				}
 			}
@@ -271,7 +271,7 @@ func (a *An) c06Commit() {
 		v := a.MustField("Conversation", fld)
 		cnt := map[string]int{}
 		for _, st := range a.StoresTo(v) {
-			fn := a.C.Name(st.Parent())
+			fn := a.C.Name(a.C.owner(st.Parent()))
 			if k, isConst := st.Val.(*ssa.Const); isConst && fld == "sentRevealSig" && k.Value != nil && k.Value.ExactString() == "false" {
 				// clearing the flag on the responder side happens right before akeHasFinished (same gate as msgState)
 			}
